@@ -544,6 +544,9 @@ func c17Corpus() []corr.Case {
 		mk("case os", "rt writereader-over 2f612f66 5 1", "rt writefile-over 2f612f67 9 1"),
 		// contents and needles that are well-formed UTF-8 beyond ASCII (the search is over bytes)
 		mk("case mem", "contains e697a5e69cace8aa9ee381aee38386e382ade382b9e38388e38081e38193e38193e381abe9879de3818ce38182e3828ae381bee38199e38082 e9879d", "contains e697a5e69cace8aa9ee381aee38386e382ade382b9e38388e38081e38193e38193e381abe9879de3818ce38182e3828ae381bee38199e38082 e38386e382ade382b9e38388", "contains e697a5e69cace8aa9ee381aee38386e382ade382b9e38388e38081e38193e38193e381abe9879de3818ce38182e3828ae381bee38199e38082 e78cab", "contains 4469652053747261c39f652066c3bc68727420c3bc6265722064656e20466c75c39f20e2809420636166c3a92c206e61c3af76652c20c3bc626572 c39f", "contains 4469652053747261c39f652066c3bc68727420c3bc6265722064656e20466c75c39f20e2809420636166c3a92c206e61c3af76652c20c3bc626572 c3bc626572 78797a", "contains 4469652053747261c39f652066c3bc68727420c3bc6265722064656e20466c75c39f20e2809420636166c3a92c206e61c3af76652c20c3bc626572 c3a9", "contains 4469652053747261c39f652066c3bc68727420c3bc6265722064656e20466c75c39f20e2809420636166c3a92c206e61c3af76652c20c3bc626572 c3", "contains 4469652053747261c39f652066c3bc68727420c3bc6265722064656e20466c75c39f20e2809420636166c3a92c206e61c3af76652c20c3bc626572 9f", "contains e697a5e69cace8aa9ee381aee38386e382ade382b9e38388e38081e38193e38193e381abe9879de3818ce38182e3828ae381bee38199e38082e697a5e69cace8aa9ee381aee38386e382ade382b9e38388e38081e38193e38193e381abe9879de3818ce38182e3828ae381bee38199e38082e697a5e69cace8aa9ee381aee38386e382ade382b9e38388e38081e38193e38193e381abe9879de3818ce38182e3828ae381bee38199e38082e697a5e69cace8aa9ee381aee38386e382ade382b9e38388e38081e38193e38193e381abe9879de3818ce38182e3828ae381bee38199e38082e697a5e69cace8aa9ee381aee38386e382ade382b9e38388e38081e38193e38193e381abe9879de3818ce38182e3828ae381bee38199e38082e697a5e69cace8aa9ee381aee38386e382ade382b9e38388e38081e38193e38193e381abe9879de3818ce38182e3828ae381bee38199e38082e697a5e69cace8aa9ee381aee38386e382ade382b9e38388e38081e38193e38193e381abe9879de3818ce38182e3828ae381bee38199e38082e697a5e69cace8aa9ee381aee38386e382ade382b9e38388e38081e38193e38193e381abe9879de3818ce38182e3828ae381bee38199e38082e697a5e69cace8aa9ee381aee38386e382ade382b9e38388e38081e38193e38193e381abe9879de3818ce38182e3828ae381bee38199e38082e697a5e69cace8aa9ee381aee38386e382ade382b9e38388e38081e38193e38193e381abe9879de3818ce38182e3828ae381bee38199e38082e697a5e69cace8aa9ee381aee38386e382ade382b9e38388e38081e38193e38193e381abe9879de3818ce38182e3828ae381bee38199e38082e697a5e69cace8aa9ee381aee38386e382ade382b9e38388e38081e38193e38193e381abe9879de3818ce38182e3828ae381bee38199e38082e697a5e69cace8aa9ee381aee38386e382ade382b9e38388e38081e38193e38193e381abe9879de3818ce38182e3828ae381bee38199e38082e697a5e69cace8aa9ee381aee38386e382ade382b9e38388e38081e38193e38193e381abe9879de3818ce38182e3828ae381bee38199e38082e697a5e69cace8aa9ee381aee38386e382ade382b9e38388e38081e38193e38193e381abe9879de3818ce38182e3828ae381bee38199e38082e697a5e69cace8aa9ee381aee38386e382ade382b9e38388e38081e38193e38193e381abe9879de3818ce38182e3828ae381bee38199e38082e697a5e69cace8aa9ee381aee38386e382ade382b9e38388e38081e38193e38193e381abe9879de3818ce38182e3828ae381bee38199e38082e697a5e69cace8aa9ee381aee38386e382ade382b9e38388e38081e38193e38193e381abe9879de3818ce38182e3828ae381bee38199e38082e697a5e69cace8aa9ee381aee38386e382ade382b9e38388e38081e38193e38193e381abe9879de3818ce38182e3828ae381bee38199e38082e697a5e69cace8aa9ee381aee38386e382ade382b9e38388e38081e38193e38193e381abe9879de3818ce38182e3828ae381bee38199e38082e697a5e69cace8aa9ee381aee38386e382ade382b9e38388e38081e38193e38193e381abe9879de3818ce38182e3828ae381bee38199e38082e697a5e69cace8aa9ee381aee38386e382ade382b9e38388e38081e38193e38193e381abe9879de3818ce38182e3828ae381bee38199e38082e697a5e69cace8aa9ee381aee38386e382ade382b9e38388e38081e38193e38193e381abe9879de3818ce38182e3828ae381bee38199e38082e697a5e69cace8aa9ee381aee38386e382ade382b9e38388e38081e38193e38193e381abe9879de3818ce38182e3828ae381bee38199e38082e697a5e69cace8aa9ee381aee38386e382ade382b9e38388e38081e38193e38193e381abe9879de3818ce38182e3828ae381bee38199e38082e697a5e69cace8aa9ee381aee38386e382ade382b9e38388e38081e38193e38193e381abe9879de3818ce38182e3828ae381bee38199e38082e697a5e69cace8aa9ee381aee38386e382ade382b9e38388e38081e38193e38193e381abe9879de3818ce38182e3828ae381bee38199e38082e697a5e69cace8aa9ee381aee38386e382ade382b9e38388e38081e38193e38193e381abe9879de3818ce38182e3828ae381bee38199e38082e697a5e69cace8aa9ee381aee38386e382ade382b9e38388e38081e38193e38193e381abe9879de3818ce38182e3828ae381bee38199e38082e697a5e69cace8aa9ee381aee38386e382ade382b9e38388e38081e38193e38193e381abe9879de3818ce38182e3828ae381bee38199e38082e697a5e69cace8aa9ee381aee38386e382ade382b9e38388e38081e38193e38193e381abe9879de3818ce38182e3828ae381bee38199e38082e697a5e69cace8aa9ee381aee38386e382ade382b9e38388e38081e38193e38193e381abe9879de3818ce38182e3828ae381bee38199e38082e697a5e69cace8aa9ee381aee38386e382ade382b9e38388e38081e38193e38193e381abe9879de3818ce38182e3828ae381bee38199e38082e697a5e69cace8aa9ee381aee38386e382ade382b9e38388e38081e38193e38193e381abe9879de3818ce38182e3828ae381bee38199e38082e697a5e69cace8aa9ee381aee38386e382ade382b9e38388e38081e38193e38193e381abe9879de3818ce38182e3828ae381bee38199e38082e697a5e69cace8aa9ee381aee38386e382ade382b9e38388e38081e38193e38193e381abe9879de3818ce38182e3828ae381bee38199e38082e697a5e69cace8aa9ee381aee38386e382ade382b9e38388e38081e38193e38193e381abe9879de3818ce38182e3828ae381bee38199e38082e697a5e69cace8aa9ee381aee38386e382ade382b9e38388e38081e38193e38193e381abe9879de3818ce38182e3828ae381bee38199e38082e697a5e69cace8aa9ee381aee38386e382ade382b9e38388e38081e38193e38193e381abe9879de3818ce38182e3828ae381bee38199e38082e697a5e69cace8aa9ee381aee38386e382ade382b9e38388e38081e38193e38193e381abe9879de3818ce38182e3828ae381bee38199e38082 e9879d", "contains e697a5e69cace8aa9ee381aee38386e382ade382b9e38388e38081e38193e38193e381abe9879de3818ce38182e3828ae381bee38199e38082e697a5e69cace8aa9ee381aee38386e382ade382b9e38388e38081e38193e38193e381abe9879de3818ce38182e3828ae381bee38199e38082e697a5e69cace8aa9ee381aee38386e382ade382b9e38388e38081e38193e38193e381abe9879de3818ce38182e3828ae381bee38199e38082e697a5e69cace8aa9ee381aee38386e382ade382b9e38388e38081e38193e38193e381abe9879de3818ce38182e3828ae381bee38199e38082e697a5e69cace8aa9ee381aee38386e382ade382b9e38388e38081e38193e38193e381abe9879de3818ce38182e3828ae381bee38199e38082e697a5e69cace8aa9ee381aee38386e382ade382b9e38388e38081e38193e38193e381abe9879de3818ce38182e3828ae381bee38199e38082e697a5e69cace8aa9ee381aee38386e382ade382b9e38388e38081e38193e38193e381abe9879de3818ce38182e3828ae381bee38199e38082e697a5e69cace8aa9ee381aee38386e382ade382b9e38388e38081e38193e38193e381abe9879de3818ce38182e3828ae381bee38199e38082e697a5e69cace8aa9ee381aee38386e382ade382b9e38388e38081e38193e38193e381abe9879de3818ce38182e3828ae381bee38199e38082e697a5e69cace8aa9ee381aee38386e382ade382b9e38388e38081e38193e38193e381abe9879de3818ce38182e3828ae381bee38199e38082e697a5e69cace8aa9ee381aee38386e382ade382b9e38388e38081e38193e38193e381abe9879de3818ce38182e3828ae381bee38199e38082e697a5e69cace8aa9ee381aee38386e382ade382b9e38388e38081e38193e38193e381abe9879de3818ce38182e3828ae381bee38199e38082e697a5e69cace8aa9ee381aee38386e382ade382b9e38388e38081e38193e38193e381abe9879de3818ce38182e3828ae381bee38199e38082e697a5e69cace8aa9ee381aee38386e382ade382b9e38388e38081e38193e38193e381abe9879de3818ce38182e3828ae381bee38199e38082e697a5e69cace8aa9ee381aee38386e382ade382b9e38388e38081e38193e38193e381abe9879de3818ce38182e3828ae381bee38199e38082e697a5e69cace8aa9ee381aee38386e382ade382b9e38388e38081e38193e38193e381abe9879de3818ce38182e3828ae381bee38199e38082e697a5e69cace8aa9ee381aee38386e382ade382b9e38388e38081e38193e38193e381abe9879de3818ce38182e3828ae381bee38199e38082e697a5e69cace8aa9ee381aee38386e382ade382b9e38388e38081e38193e38193e381abe9879de3818ce38182e3828ae381bee38199e38082e697a5e69cace8aa9ee381aee38386e382ade382b9e38388e38081e38193e38193e381abe9879de3818ce38182e3828ae381bee38199e38082e697a5e69cace8aa9ee381aee38386e382ade382b9e38388e38081e38193e38193e381abe9879de3818ce38182e3828ae381bee38199e38082e697a5e69cace8aa9ee381aee38386e382ade382b9e38388e38081e38193e38193e381abe9879de3818ce38182e3828ae381bee38199e38082e697a5e69cace8aa9ee381aee38386e382ade382b9e38388e38081e38193e38193e381abe9879de3818ce38182e3828ae381bee38199e38082e697a5e69cace8aa9ee381aee38386e382ade382b9e38388e38081e38193e38193e381abe9879de3818ce38182e3828ae381bee38199e38082e697a5e69cace8aa9ee381aee38386e382ade382b9e38388e38081e38193e38193e381abe9879de3818ce38182e3828ae381bee38199e38082e697a5e69cace8aa9ee381aee38386e382ade382b9e38388e38081e38193e38193e381abe9879de3818ce38182e3828ae381bee38199e38082e697a5e69cace8aa9ee381aee38386e382ade382b9e38388e38081e38193e38193e381abe9879de3818ce38182e3828ae381bee38199e38082e697a5e69cace8aa9ee381aee38386e382ade382b9e38388e38081e38193e38193e381abe9879de3818ce38182e3828ae381bee38199e38082e697a5e69cace8aa9ee381aee38386e382ade382b9e38388e38081e38193e38193e381abe9879de3818ce38182e3828ae381bee38199e38082e697a5e69cace8aa9ee381aee38386e382ade382b9e38388e38081e38193e38193e381abe9879de3818ce38182e3828ae381bee38199e38082e697a5e69cace8aa9ee381aee38386e382ade382b9e38388e38081e38193e38193e381abe9879de3818ce38182e3828ae381bee38199e38082e697a5e69cace8aa9ee381aee38386e382ade382b9e38388e38081e38193e38193e381abe9879de3818ce38182e3828ae381bee38199e38082e697a5e69cace8aa9ee381aee38386e382ade382b9e38388e38081e38193e38193e381abe9879de3818ce38182e3828ae381bee38199e38082e697a5e69cace8aa9ee381aee38386e382ade382b9e38388e38081e38193e38193e381abe9879de3818ce38182e3828ae381bee38199e38082e697a5e69cace8aa9ee381aee38386e382ade382b9e38388e38081e38193e38193e381abe9879de3818ce38182e3828ae381bee38199e38082e697a5e69cace8aa9ee381aee38386e382ade382b9e38388e38081e38193e38193e381abe9879de3818ce38182e3828ae381bee38199e38082e697a5e69cace8aa9ee381aee38386e382ade382b9e38388e38081e38193e38193e381abe9879de3818ce38182e3828ae381bee38199e38082e697a5e69cace8aa9ee381aee38386e382ade382b9e38388e38081e38193e38193e381abe9879de3818ce38182e3828ae381bee38199e38082e697a5e69cace8aa9ee381aee38386e382ade382b9e38388e38081e38193e38193e381abe9879de3818ce38182e3828ae381bee38199e38082e697a5e69cace8aa9ee381aee38386e382ade382b9e38388e38081e38193e38193e381abe9879de3818ce38182e3828ae381bee38199e38082e697a5e69cace8aa9ee381aee38386e382ade382b9e38388e38081e38193e38193e381abe9879de3818ce38182e3828ae381bee38199e38082 e3818ce38182e3828ae381bee38199e38082e697a5e69cac"),
+		// names that merely begin with two dots, below a BasePathFs and elsewhere
+		mk("case bp", "rt writereader "+corr.HexS("/..data/f.bin")+" 9 1", "rt safewrite "+corr.HexS("/..2024_01_01.bin")+" 5 2", "rt writefile "+corr.HexS("/.../g")+" 7 3", "rt safeexisting "+corr.HexS("/..data/keep")+" 8 4"),
+		mk("case mem", "rt writereader "+corr.HexS("/..data/f.bin")+" 9 1", "rt safewrite "+corr.HexS("/..x")+" 5 2"),
 		// a union whose overlay keeps real directories, files several directories deep
 		mk("case mem", "deep-osl cow"),
 		// a name without any directory part; payloads larger than io.Copy's buffer through a reader without WriteTo
